@@ -228,3 +228,9 @@ Theorem C04_ring : forall (r R0 : R) (n : Z) (c : list (pt2 R)) (degrees : R) (s
   rotate_extrude (pt2s_translate c (Pt2 R0 0%R)) degrees segments = Some ph ->
   (forall u v, (mcnt u v (snd ph) <= 1)%nat /\ mcnt u v (snd ph) = mcnt v u (snd ph)) /\ (vol6 (fst ph) (snd ph) < 0)%R.
 Proof. exact ring_unconditional. Qed.
+(* every prism over a fan-convex outline: closed in the exact form, and outward for a clockwise outline and positive height *)
+Theorem C04_prism_fanconvex : forall (pts : list (pt2 R)) (h : R) ph, linear_extrude pts h = Some ph ->
+  fanconv false (enumerate pts) -> fanconv true (rev (enumerate pts)) ->
+  (forall u v, (mcnt u v (snd ph) <= 1)%nat /\ mcnt u v (snd ph) = mcnt v u (snd ph)) /\
+  ((0 < h)%R -> (Poly.area2 pts < 0)%R -> (vol6 (fst ph) (snd ph) < 0)%R).
+Proof. exact prism_fanconvex. Qed.
